@@ -354,7 +354,7 @@ func init() {
 		}
 		n, nseq, nfault := 300, 60, 40
 		if thorough() {
-			n, nseq, nfault = 3000, 600, 400
+			n, nseq, nfault = 30000, 6000, 2500
 		}
 		var jobs []func()
 		for i := 0; i < n; i++ {
